@@ -401,7 +401,7 @@ def run(ck):
     # ---- Coq: certificates
     codes = []
     try:
-        codes = sc.run_chunks(ck, "fix", "", certs, VEC_IMPORTS, chunk=400)
+        codes = sc.run_chunks(ck, "fix", "", certs, VEC_IMPORTS, chunk=150)
     except CoqFailure as e:
         ck.broken_proof = "correspondence Model/VecStars.fix_okb: %s" % e
     nbad = 0
